@@ -194,6 +194,10 @@ func c03(w *core.World, r *core.Report) {
 		}
 	}
 
+	// ---- APPLY-SENDS (shared with C01)
+	r.Rule("APPLY-SENDS", 2, "Datastore.applyIntent returns success only after target.Target.Set was called with the tree it was given (dominance over every nil-error return). Decides: the deletes and updates a dry run reports from that tree are not silently withheld from the device by a shortcut in the apply step.")
+	ruleApplySends(w, r, "APPLY-SENDS")
+
 	// ---- PREDICT
 	r.Rule("PREDICT", 4, "structural part of 'dry run predicts the real run' in lowlevelTransactionSet: the reported updates/deletes are computed from the same tree value that is handed to applyIntent, before the dryRun branch, with onlyNewOrUpdated=true, and between computing them and applyIntent no call mutates that tree (only the frozen read-only methods may take it as receiver).")
 	predict(w, r, low)
